@@ -478,7 +478,12 @@ is_constructible(const CPPType *given_type) const {
 
   // Does the type match the copy constructor or move constructor?
   CPPType *base_type = ((CPPType *)given_type)->remove_reference();
-  if (is_equivalent(*base_type->remove_cv())) {
+  CPPType *bare_type = base_type->remove_cv();
+  while (bare_type->as_typedef_type() != nullptr) {
+    // The argument may name this class through a typedef.
+    bare_type = bare_type->as_typedef_type()->_type->remove_cv();
+  }
+  if (is_equivalent(*bare_type)) {
     const CPPReferenceType *ref_type = given_type->as_reference_type();
     if (ref_type == nullptr ||
         ref_type->_value_category == CPPReferenceType::VC_rvalue) {
